@@ -6,13 +6,30 @@ from .bddprops import ASSUMPTIONS
 BOUNDS = ('ADF families F(n,S,seed): n=2 with all statements symbolic (the complete space of 256 ADFs); n=3 with |S|=1 symbolic statement '
           '(256 functions) in concrete contexts drawn from VERIF_SEED; thorough adds n=3 |S|=2 (65 536 ADFs per family) and n=4 |S|=1. '
           'Diagrams are built through the real Bdd::node (Shannon expansion); MIR step fuel per path as configured.')
-OUTSIDE = ('n=3 with all statements symbolic (16.7M ADFs) and larger; biodivine / hybrid back-ends (their library internals cannot be executed '
-           'symbolically; the bridge is validated under C09); text syntax (C08/C09)')
+OUTSIDE = ('symbolic engine: n=3 with all statements symbolic (16.7M ADFs) and larger, and the biodivine library internals. The biodivine / hybrid back-ends and '
+           'the rewriting variants are covered by the second engine (z3 judging the real binary\'s answers on concrete texts, see coverage.backend_*), '
+           'which validates individual instances, not all inputs; text syntax is C08/C09')
 
-def make(procs, canary_proc, **kw):
+def replay(ctx, v):
+    if 'backend' in v:
+        from . import backends
+        return backends.replay_backend(ctx, v)
+    return semjobs.replay(ctx, v)
+
+def key(v):
+    if 'backend' in v:
+        import hashlib
+        return '%s:%s:%s:%s' % (v['backend'], v['proc'], v['sort'], hashlib.sha1(v['text'].encode()).hexdigest()[:12])
+    return semjobs.key(v)
+
+def make(procs, canary_proc, backend_kinds=(), **kw):
     def spec(ctx, tier, seed):
         ctx.engine()
+        def extra(ctx_):
+            from . import backends
+            return backends.run_backends(ctx_, tier, seed, list(backend_kinds))
         return {'jobs': semjobs.make_jobs(Job, procs, tier, seed, canary_proc, **kw), 'level': 'model_checking',
+                'extra': extra if backend_kinds else None,
                 'assumptions': ASSUMPTIONS + ['crossbeam unbounded channel = lossless FIFO with sender/receiver counts',
                                               'rand::StdRng: every draw is an unconstrained symbolic value (over-approximates all seeds)'],
                 'bounds': BOUNDS, 'outside': OUTSIDE, 'allowed_status': ('ok', 'panic', 'bound')}
